@@ -81,10 +81,20 @@ def make_scenario(seed, idx, tool):
     rng = rng_for(seed, "C09", idx, 0 if tool == "kaldi" else 1)
     rate = int(rng.choice([8000, 16000]))
     comp = computer_cfg(rng, rate, allow_none=(tool == "torch"))
+    odd = idx % 6 == 5
+    while odd and (comp is None or comp["name"] != "stft"):
+        comp = computer_cfg(rng, rate, allow_none=False)
+    if odd:
+        # a complex bank reaching Nyquist with an unpadded, odd DFT size (mirrored-bin walk of the torch port)
+        comp["bank"] = {"name": "gabor", "scaling_function": "mel", "num_filts": 5, "sampling_rate": rate, "low_hz": 0.0, "high_hz": float(rate // 2)}
+        comp["pad_to_nearest_power_of_two"] = False
+        comp["frame_length_ms"] = 20.0 + 1000.0 / rate + 1e-6
     if comp is not None and comp["name"] == "stft":
         # every (frame style, kaldi_shift) combination occurs, in turn (kaldi_shift is a no-op for causal frames)
         comp["frame_style"], comp["kaldi_shift"] = [("centered", False), ("causal", True), ("centered", True), ("causal", False)][idx % 4]
     kind = str(rng.choice(["pipeline", "pipeline", "pipeline", "dither", "order"]))
+    if odd:
+        kind = "pipeline"
     pre, post = [], []
     if kind == "pipeline":
         if rng.random() < 0.7:
